@@ -75,6 +75,11 @@ class RunMonitor:
                 out.append(cur)
             elif e[0] == "sample" and cur is not None and e[1] is cur[1] and cur[4] is None:
                 cur[4] = e[2]
+            elif e[0] == "raised" and cur is not None:
+                # the calibrate() call ended in an exception: the batch that was under way was not completed (nothing of it is recorded)
+                if out and out[-1] is cur:
+                    out.pop()
+                cur = None
         return [tuple(b) for b in out]
 
 
